@@ -532,6 +532,19 @@ def run(res, ctx):
         for c in cuts_of(rows):
             for annual in (False, True):
                 cases.append((rows, c, annual))
+    # the same with user-supplied superficial losses (forced values incl. 0!: kept verbatim when a sale is re-emitted)
+    for _ in range(100 if tier == "quick" else 1000):
+        rows = gen.gen_history(rng, n_rows=rng.randint(3, 10), p_invalid=0.0, p_sfl_spec=0.0,
+                               afs=rng.sample(["", "Spouse", "B"], rng.choice([1, 2])),
+                               window_focus=True, terminating_only=True)
+        sells = [r for r in rows if r["act"] == "Sell"]
+        if not sells:
+            continue
+        for r in rng.sample(sells, min(len(sells), rng.choice([1, 1, 2]))):
+            v = rng.choice([core.D(0), core.D(0), core.D(-rng.randint(1, 3000), 2)])
+            r["sfl"] = (v, True)
+        for c in cuts_of(rows):
+            cases.append((rows, c, False))
     for i in range(0, len(cases), 2000):
         check_cases(res, ctx, cases[i:i + 2000], "random-sweep")
     for c, (h, bad) in ctx["class_hits"].items():
